@@ -13,7 +13,7 @@ r = sh("git -C /repo apply %s" % os.path.join(mut, "patch.diff"))
 if r.returncode: print("patch does not apply:", r.stdout); sys.exit(2)
 t0 = time.time()
 try:
-    r = sh("./check %s %s" % (pid, tier), cwd=ROOT)
+    r = sh("VERIF_NO_EVIDENCE=1 ./check %s %s" % (pid, tier), cwd=ROOT)
 finally:
     sh("git -C /repo checkout -- .")
 out = r.stdout
